@@ -84,7 +84,8 @@ func (t *vfTask) Run(ctx context.Context) error {
 	}
 }
 
-var vfTaskRe = regexp.MustCompile(`vf-task-(\d+)`)
+// the failing stub task is recognised by its own error text, which Serve has to pass on whatever it wraps around it
+var vfTaskRe = regexp.MustCompile(`vf: task (\d+) failed`)
 
 func TestVF_Server(t *testing.T) {
 	in, out := vfEnv("VF_IN", ""), vfEnv("VF_OUT", "")
@@ -328,18 +329,18 @@ func vfBuildScenario(rec *vfRec, sc map[string]any) {
 	srv := NewServer(NewContext(nil, nil, nil))
 	var kinds []any
 	for _, task := range srv.BuildTasks(cfg, http.NotFoundHandler()) {
-		s := task.String()
-		switch {
-		case strings.HasPrefix(s, "advertiser "):
-			kinds = append(kinds, "adv:"+strings.Trim(strings.TrimPrefix(s, "advertiser "), `"`))
-		case strings.HasPrefix(s, "monitor "):
-			kinds = append(kinds, "mon:"+strings.Trim(strings.TrimPrefix(s, "monitor "), `"`))
-		case strings.HasPrefix(s, "debug HTTP server"):
+		// classified by what the task is, not by how it describes itself
+		switch tk := task.(type) {
+		case *Advertiser:
+			kinds = append(kinds, "adv:"+tk.cfg.Name)
+		case *Monitor:
+			kinds = append(kinds, "mon:"+tk.iface)
+		case *httpTask:
 			kinds = append(kinds, "http")
-		case s == "link state watcher":
+		case *watcherTask:
 			kinds = append(kinds, "watcher")
 		default:
-			kinds = append(kinds, "other:"+s)
+			kinds = append(kinds, "other:"+task.String())
 		}
 	}
 	if kinds == nil {
